@@ -361,29 +361,61 @@ Proof.
     split; repeat constructor; apply G; lia.
 Qed.
 
+Lemma Forall_dec_nz b n c : complement_bound b n = Some c ->
+  Forall (fun u => blast u = false) c \/ c = [b].
+Proof.
+  unfold complement_bound. destruct (try_into_range b n) as [[s e]|]; [|discriminate].
+  intros H; injection H as <-. left. apply Forall_forall. intros u Hin.
+  apply in_map_iff in Hin. destruct Hin as [r [<- _]]. reflexivity.
+Qed.
+
 Lemma complement_items_bounds bs n :
   complement_items (map Bound bs) n
-  = map Bound (flat_map (fun b => match complement_bound b n with Some c => c | None => [] end) bs).
+  = map Bound (flat_map (fun b => match complement_bound b n with Some c => c | None => [b] end) bs).
 Proof.
   induction bs as [|b bs IH]; [reflexivity|]. unfold complement_items in *. cbn [map flat_map].
   rewrite IH, map_app. destruct (complement_bound b n); reflexivity.
 Qed.
 
+Lemma unmarked_init_flat (f : ubound -> list ubound) bs :
+  (forall b, Forall (fun u => blast u = false) (f b) \/ f b = [b]) ->
+  unmarked_init bs -> unmarked_init (flat_map f bs).
+Proof.
+  intros Hf. induction bs as [|b bs IH]; intros H; [exact I|]. destruct H as [Hb Hr]. cbn [flat_map].
+  destruct (Hf b) as [Hu|E].
+  - apply unmarked_init_app; [exact Hu | apply IH, Hr].
+  - rewrite E. cbn [app unmarked_init]. split; [|apply IH, Hr].
+    intros Hne. apply Hb. intros ->. apply Hne. reflexivity.
+Qed.
+
+Lemma set_last_flag_unmarked_init X : unmarked_init X -> unmarked_init (set_last_flag X).
+Proof.
+  induction X as [|x X IH]; intros H; [exact I|]. destruct H as [Hx Hr].
+  destruct X as [|y Y]; [cbn; split; [intros C; contradiction C; reflexivity | exact I]|].
+  change (set_last_flag (x :: y :: Y)) with (x :: set_last_flag (y :: Y)).
+  split; [intros _; apply Hx; discriminate | apply IH, Hr].
+Qed.
+
 Lemma complement_list_plain bs n u :
-  Forall bound_nz bs -> complement_list (map Bound bs) n = Some u ->
+  Forall bound_nz bs -> unmarked_init bs -> complement_list (map Bound bs) n = Some u ->
   exists cs, plain_bounds (items u) cs.
 Proof.
-  intros Hnz. unfold complement_list. rewrite complement_items_bounds, bounds_only_map_Bound.
-  set (X := flat_map _ bs).
-  assert (HX : Forall bound_nz X /\ Forall (fun u => blast u = false) X).
-  { subst X. induction bs as [|b bs IH]; [split; constructor|].
-    inversion Hnz as [|? ? Hb Hr]; subst. destruct (IH Hr) as [I1 I2]. cbn [flat_map].
-    destruct (complement_bound b n) as [c|] eqn:E; [|split; assumption].
-    destruct (complement_bound_good b n c Hb E) as [G1 G2].
-    split; apply Forall_app; split; assumption. }
-  destruct HX as [X1 X2]. destruct X as [|x X'] eqn:EX; [discriminate|]. rewrite <- EX in *.
+  intros Hnz Hu. unfold complement_list. rewrite complement_items_bounds, bounds_only_map_Bound.
+  set (f := fun b => match complement_bound b n with Some c => c | None => [b] end).
+  set (X := flat_map f bs).
+  assert (X1 : Forall bound_nz X).
+  { subst X. clear Hu. induction bs as [|b bs IH]; [constructor|].
+    inversion Hnz as [|? ? Hb Hr]; subst. cbn [flat_map]. apply Forall_app. split; [|apply IH, Hr].
+    unfold f. destruct (complement_bound b n) as [c|] eqn:E.
+    - apply (complement_bound_good b n c Hb E).
+    - constructor; [exact Hb | constructor]. }
+  assert (X2 : unmarked_init X).
+  { subst X. apply unmarked_init_flat; [|exact Hu]. intros b. unfold f.
+    destruct (complement_bound b n) as [c|] eqn:E; [|right; reflexivity].
+    destruct (Forall_dec_nz b n c E) as [H|H]; [left; exact H|right; exact H]. }
+  destruct X as [|x X'] eqn:EX; [discriminate|]. rewrite <- EX in *.
   intros FV. exists (set_last_flag X). split; [exact (from_vec_bounds _ _ FV)|].
-  split; [apply set_last_flag_nz, X1|]. split; [apply set_last_flag_unmarked, X2 | apply set_last_flag_idem].
+  split; [apply set_last_flag_nz, X1|]. split; [apply set_last_flag_unmarked_init, X2 | apply set_last_flag_idem].
 Qed.
 
 Theorem C08_record o rec out bs0 :
@@ -434,7 +466,7 @@ Proof.
     exists pss. split; [exact HF|]. unfold json_array_line. rewrite <- !app_assoc. reflexivity. }
   destruct (o_complement o) eqn:Cm.
   - destruct (complement_list (items (o_bounds o)) (length fields)) as [u|] eqn:CL; [|discriminate].
-    rewrite Hit in CL. destruct (complement_list_plain bs0 _ u Hnz CL) as [cs Hcs].
+    rewrite Hit in CL. destruct (complement_list_plain bs0 _ u Hnz Hu CL) as [cs Hcs].
     pose proof Hcs as [Hcit _]. rewrite Hcit. rewrite Hcit in Hcs. intros H.
     destruct (G cs Hcs H) as [pss [HF ->]].
     right. right. exists line, fields, cs, pss. split; [discriminate | split; [exact HF | reflexivity]].
